@@ -554,6 +554,72 @@ def ctl_twins():
     return out
 
 
+SLOT = ('ap', '__slot__')
+
+
+def _count(t, x):
+    if t == x:
+        return 1
+    if t[0] in LEAF:
+        return 0
+    return sum(_count(c, x) for c in t[1:])
+
+
+def subst(t, x, by):
+    if t == x:
+        return by
+    if t[0] in LEAF:
+        return t
+    return (t[0],) + tuple(subst(c, x, by) for c in t[1:])
+
+
+_CTX_CACHE = {}
+
+
+def contexts(un, bin_, k, key, leaves=None):
+    """Every formula with <= k operators over the leaves {p, q, SLOT} in which SLOT occurs at least twice."""
+    ck = (key, k)
+    if ck not in _CTX_CACHE:
+        lv = (P, Q, SLOT) if leaves is None else tuple(leaves) + (SLOT,)
+        _CTX_CACHE[ck] = [c for j in range(1, k + 1) for c in enum_exact(un, bin_, lv, j, key + '-ctx')
+                          if _count(c, SLOT) >= 2]
+    return _CTX_CACHE[ck]
+
+
+def context_family(un, bin_, k, key, subs, stride=1, offset=0):
+    """ANY repeated subformula: every context of <= k operators over {p, q, SLOT} with SLOT at least
+    twice, SLOT replaced by every formula of `subs` (Boolean ones too: p --> (q --> r) next to
+    q --> r); every stride-th of the (context, sub) pairs."""
+    cs = contexts(un, bin_, k, key)
+    out = []
+    i = offset
+    total = len(cs) * len(subs)
+    while i < total:
+        out.append(subst(cs[i // len(subs)], SLOT, subs[i % len(subs)]))
+        i += stride
+    return out
+
+
+def ctl_context(stride=1):
+    """CTL: contexts of <= 2 operators x every 1-operator formula over {p,q,true,false} (compound
+    operands only; 140 of them)."""
+    return context_family(CTL_UN, CTL_BIN, 2, 'ctl', enum_exact(CTL_UN, CTL_BIN, LEAVES4, 1, 'ctl'), stride)
+
+
+def ltl_context():
+    """LTL: contexts of <= 2 operators x every 1-operator path formula over {p,q,true,false} (39 840;
+    at most 3 distinct temporal subformulas each, the tableau under test being exponential)."""
+    return context_family(LTL_UN, LTL_BIN, 2, 'ltl', enum_exact(LTL_UN, LTL_BIN, LEAVES4, 1, 'ltl'))
+
+
+def ctls_context_q():
+    """CTL*: Q1 ctx[Q2 h]: the repeated subformula is a QUANTIFIED one-temporal-operator formula inside a
+    path context of <= 2 operators under an outer quantifier (23 240)."""
+    subs = [(q, h) for q in 'AE' for h in enum_exact(LTL_UN, LTL_BIN, (P, Q), 1, 'ltl2') if h[0] in TEMP]
+    body = context_family(LTL_UN, LTL_BIN, 2, 'ltl', subs)
+    return [(q, b) for b in body for q in 'AE']
+
+
 def ctls_siblings():
     """CTL* state formulas in which the SAME non-CTL path formula g is quantified twice, by the
     same or by different quantifiers, as siblings in a Boolean combination, at top level and under an
